@@ -3,7 +3,7 @@
 
 def nontrivial(req, obs):
     f = req.split()
-    if f[0] in ("pq", "pqf", "pqc"):
+    if f[0] in ("pq", "pqf", "pqc", "pqs"):
         # the handler failed (the middleware had something to decide)
         return len(f) in (15, 16) and f[13] != "nil"
     if f[0] == "pq2":
@@ -42,6 +42,7 @@ PROP = {
             "the returned (events, err) read by an observer middleware outside the poison middleware. "
             "long error texts (1000 .. 70000 bytes, lengths around 1 KiB / 4 KiB / 64 KiB, plain, %w-wrapped and as multierror parts, the distinguishing part at the END of the text as in a wrapped chain) stand-alone through five filter families and inside a Router: the reason metadata must be the whole err.Error(). " 
             "pqc (application context): the message context holds application values under plain STRING keys - among them 'handler_name', 'subscribe_topic', 'subscriber_name', the strings behind the Router's typed keys - carried in with the message or set by the handler before it fails, stand-alone and inside a Router: the poison metadata must name the Router's topic/handler/subscriber, not those values. panicking poison publisher (pubout panic:<value>), stand-alone and inside a Router (router-level and handler-level middleware): success must not be reported, the Router Nacks. " 
+            "pqs (state of the message when the handler fails): its context is already over - cancelled or past its deadline when it arrived (InstantAck on GoChannel, a Timeout in front), or cancelled by the handler - and/or the handler has acked / nacked the message itself before failing; stand-alone and inside a Router (both middleware levels): an accepted failure is still published exactly once and reported as success (the settlement is then the handler's own: first wins, the settlement rules are not applied to it). " 
             "pqf (stateful filters): PoisonQueueWithFilter with a filter scripted as a sequence of answers (budgets 1100.., alternating, "
             "single answers) - 13 answer scripts x {ok, errors.New, sentinel, multierror} x publisher ok/fail stand-alone, and 12 (quick) "
             "streams of 8 messages through one middleware value stand-alone and inside a Router; the number of consultations per message "
